@@ -84,7 +84,8 @@ fn nth_perm(n: usize, mut k: usize) -> Vec<usize> {
 
 impl<C: Suite> M06<C> {
     pub fn new(tier: Tier, _seed: u64) -> Self {
-        let ns: Vec<usize> = if tier.thorough() { (2..=NMAX).collect() } else { vec![2, 3, 4, 5, 8, 16, 17, 63, 64] };
+        // beyond 64 signers: the block sizes of batched pairing code (64, 128) and the 7 / 8 bit boundaries
+        let ns: Vec<usize> = if tier.thorough() { (2..=NMAX).chain([65, 127, 128, 129, 255, 256, 257]).collect() } else { vec![2, 3, 4, 5, 8, 16, 17, 63, 64, 65, 127, 128, 129, 256, 257] };
         let nk = ns.iter().max().unwrap() + 1;
         let sks: Vec<SecretKey<C>> = (0..nk).map(|i| SecretKey::<C>::from_hash(format!("c06-key-{}", i))).collect();
         let pks = sks.iter().map(|s| s.public_key()).collect();
@@ -131,6 +132,9 @@ impl<C: Suite> M06<C> {
         if n <= 8 {
             return true;
         }
+        if n > NMAX {
+            return matches!(edit, None) || matches!(edit, Some(Edit::Drop(i)) if *i == 0 || *i == n - 1);
+        }
         match edit {
             None => true,
             Some(Edit::AlterMsg(i)) | Some(Edit::AlterKey(i)) | Some(Edit::Drop(i)) | Some(Edit::ReAdd(i)) => *i == 0 || *i == n - 1,
@@ -153,6 +157,9 @@ impl<C: Suite> Model for M06<C> {
             for &n in &self.ns {
                 for pat in PATS {
                     if n < 3 && matches!(pat, Pat::DupFirstLast | Pat::RepeatFirstPair | Pat::RepeatFirstPairAdjacent) {
+                        continue;
+                    }
+                    if n > NMAX && !matches!(pat, Pat::Distinct | Pat::AllEqual | Pat::DupPair) {
                         continue;
                     }
                     v.push(St::List { s, n, pat, edit: None });
@@ -276,6 +283,9 @@ impl<C: Suite> Model for M06<C> {
                         sum += *sg.as_raw_value();
                     }
                     o.expect(&format!("C06:aggregate-is-sum:{}:{}:{:?}", g, s.name(), pat), agg == mk_agg_sig::<C>(s, sum), "group sum of all parts", "differs");
+                }
+                if edit.is_none() && n <= 5 {
+                    expect_ct_move(o, "C06", &format!("AggregateSignature<{}>", g), &agg, &mk_agg_sig::<C>(s, *sigs[0].as_raw_value()));
                 }
                 let mut list: Vec<(PublicKey<C>, Vec<u8>)> = (0..n).map(|i| (self.pks[Self::signer(pat, n, i)], Self::msg_at(pat, n, i))).collect();
                 let foreign = self.pks[self.pks.len() - 1];
